@@ -1070,6 +1070,14 @@ func (env *SpecEnv) evalCall(c *ast.CallExpr) TV {
 			}
 			h := env.st.heapGet("[]"+typeName(et)+cs[0].Suffix, heapSort(2, cs[0].Sort))
 			return TV{Scalar{Select(h, sv.Arr)}, nil}
+		case "subslice":
+			// subslice(a, b): a is a window of b - same backing array, inside b's [off, off+len)
+			a, ok1 := env.eval(c.Args[0]).V.(SliceV)
+			b, ok2 := env.eval(c.Args[1]).V.(SliceV)
+			if !ok1 || !ok2 {
+				tool("spec: subslice of non-slices")
+			}
+			return TV{Scalar{And(Eq(a.Arr, b.Arr), Le(b.Off, a.Off), Le(Add(a.Off, a.Len), Add(b.Off, b.Len)))}, boolT}
 		case "samearray":
 			// samearray(a, b): the two slices share backing array, offset and capacity (lengths may differ)
 			a, ok1 := env.eval(c.Args[0]).V.(SliceV)
